@@ -196,6 +196,16 @@ def run(ctx):
                 viol.append({"id": 0, "tags": ["C13"], "why": "time grows faster than quadratic-ish bound in series %s: n=%d %.2fs -> n=%d %.2fs" % (name, n1, t1, n2, t2),
                              "at": "scale", "i": 0, "obs": [], "bits": 0, "kind": "scale", "src": name})
 
+    # (d') beyond the scale C13 quantifies over (10^5 tokens = depth 50 000 assembles): parenthesis depth 100 000 exhausts the
+    # goroutine stack inside the generated recursive-descent parser (listed finding; reported again if it ever ends differently)
+    t, st = timed("\tDD\t" + "(" * 100000 + "1" + ")" * 100000 + "\n")
+    series["nesting_100000"] = [(100000, round(t or 0, 3), st)]
+    if st not in ("ok", "parse") and not (st == "exit" and (t or 0) < 60):
+        if "D_ParserStackDepth" in openf:
+            known_hit["D_ParserStackDepth"] = 1
+        else:
+            viol.append({"id": 0, "tags": ["C13"], "why": "abnormal termination at parenthesis depth 100000: %s" % st, "at": "scale", "i": 0, "obs": [], "bits": 0, "kind": "scale", "src": "nesting_100000"})
+
     class RR:
         cases = []
     known = []
